@@ -27,7 +27,7 @@ RULE = (
     "all-keys, buffer size)."
 )
 ASSUMPTIONS = [
-    "the left-over keys of all-keys mode are tried 'most common byte first' (bytes filling aligned 4-byte groups of the decoded payload, as iter_beacon_config_blocks documents); that order is judged only in the dominant-key class (one candidate's key byte pads a whole 4096-byte block, the other candidates' key bytes fill no group, default buffer size); elsewhere any left-over-key block of the first view that has one is accepted, file order within one key is required",
+    "the left-over keys of all-keys mode are tried 'most common byte first' (bytes filling aligned 4-byte groups of the decoded payload, as iter_beacon_config_blocks documents); that order is judged in the dominant-key class (one candidate's key byte pads a whole 4096-byte block, the other candidates' key bytes fill no group) and in the priority class (two padded blocks, the counts of complete aligned groups differ by 1..59; any buffer size); elsewhere any left-over-key block of the first view that has one is accepted, file order within one key is required",
     "filler contains no ff ff ff (it would add end-of-stub candidates to XorEncoded detection)",
 ]
 REQUIRED_MONITORS = ["model.block", "model.novalue", "constructors.agree", "repeat.other_keys", "XorEncodedFile.read.position"]
@@ -182,7 +182,7 @@ def check_case(case, ctx):
                  "expected": None if exp is None else [(v, p, k) for v, p, k in exp[1][:3]]},
            classes=(f"layout:{meta.get('layout')}", f"bs:{bs}", "expect:none" if exp is None else f"expect:{exp[0]}",
                     f"keys:{'default' if keys is None else len(keys)}", f"allkeys:{allk}", f"decoys:{meta.get('decoys', 0)}",
-                    f"place:{meta.get('place')}", f"fill:{meta.get('fill')}"))
+                    f"place:{meta.get('place')}", f"fill:{meta.get('fill')}", f"guardlike-seam:{bool(meta.get('guardlike'))}"))
 
 
 # ---- generator ------------------------------------------------------------------------------------------------
@@ -221,6 +221,7 @@ def gen_case(rng, tier, force_key=None):
     ncfg = rng.choice([1, 1, 1, 2, 3, 4])
     near = False
     place = None
+    guardlike = False
     for ci in range(ncfg):
         k = key if ci == 0 else rng.choice([rng.randrange(256), 0x69, 0x2E, 0x00, key])
         how = rng.choice(["zero", "end", "boundary", "random", "boundary"])
@@ -241,12 +242,21 @@ def gen_case(rng, tier, force_key=None):
         if ci == 0:
             place = how
             near = min(off % eff_bs, eff_bs - off % eff_bs) <= 8
+            if rng.random() < 0.03:  # (each one costs a full environmental-key search, ~0.4 s)
+                # bytes 6138 after the block start that look like the seam between a Guardrails-masked configuration and its
+                # guard configuration (reverse(a) ^ b is a guard option header under key 0x8a): the block is still a plain block
+                if len(body) < off + 6150:
+                    body += P.filler(rng, off + 6150 - len(body), fill)
+                a = rng.randbytes(6)
+                g = rng.choice([b"\x00\x05\x00\x01\x00\x02", b"\x00\x06\x00\x01\x00\x02", b"\x00\x07\x00\x01\x00\x02", b"\x00\x08\x00\x02\x00\x04"])
+                body[off + 6138 : off + 6150] = a + bytes(x ^ y ^ 0x8A for x, y in zip(a[::-1], g))
+                guardlike = True
     raw = bytes(body)
     if raw[:1100].count(b"\xff\xff\xff") > 4:
         # every ff ff ff in the first 1 KB is an end-of-stub candidate that costs 1024 header probes (minutes in
         # total, see DESIGN.md "cost pathology"): keep such blocks (key 0xff) out of the detection range
         raw = P.filler(rng, 1100) + raw
-    meta = {"layout": layout, "decoys": ncfg - 1, "near_boundary": near, "place": place, "fill": fill.split(":")[0]}
+    meta = {"layout": layout, "decoys": ncfg - 1, "near_boundary": near, "place": place, "fill": fill.split(":")[0], "guardlike": guardlike}
     if layout == "raw":
         payload, views = raw, [("raw", raw)]
     else:
@@ -269,6 +279,8 @@ def gen_case(rng, tier, force_key=None):
         hows = ["file"]
     elif r < 0.4:
         hows = ["path"]
+    if guardlike:
+        bs = None  # the environmental-key search that the seam triggers reads 255 times through the same buffer size: minutes with tiny buffers
     return {"payload": payload, "keys": keys, "allk": allk, "bs": bs, "views": views, "hows": hows, "meta": meta,
             "again": keys is not None and rng.random() < 0.3}
 
@@ -302,6 +314,33 @@ def gen_dominant(rng):
             "hows": [rng.choice(["bytes", "file", "path"])], "meta": meta, "again": False}
 
 
+def count_groups(data, byte):
+    """aligned, complete 4-byte groups of the payload that consist of `byte`"""
+    g = bytes([byte]) * 4
+    return sum(1 for i in range(0, len(data) - 3, 4) if data[i : i + 4] == g)
+
+
+def gen_priority(rng):
+    """All-keys mode, two fully padded blocks under left-over keys A < B whose byte-frequency differs by a small margin in
+    B's favour (B's byte fills a few more aligned 4-byte groups of the payload): B has priority - for every read-buffer
+    size, since the payload is the same."""
+    a = rng.choice([x for x in range(1, 200) if x not in (0x69, 0x2E)])
+    b = rng.choice([x for x in range(a + 1, 255) if x not in (0x69, 0x2E)])
+    ba = P.rx1((tlv.short(1, 0) + tlv.short(2, 1111) + tlv.S(3, 2, rng.randbytes(4))).ljust(4096, b"\0"), a)
+    bb = P.rx1((tlv.short(1, 8) + tlv.short(2, 2222) + tlv.S(26, 3, rng.randbytes(rng.randrange(4, 40)))).ljust(4096, b"\0"), b)
+    body = bytearray(ba + bb if rng.random() < 0.5 else bb + ba)
+    margin = rng.randrange(1, 60)
+    diff = count_groups(body, b) - count_groups(body, a)
+    # groups of the key byte separated by other bytes: each one counts exactly when it is read as one aligned group
+    body += (bytes([b]) * 4 + b"\x01\x02\x03\x04") * max(margin - diff, 0) + (bytes([a]) * 4 + b"\x01\x02\x03\x04") * max(diff - margin, 0)
+    body = bytes(body)
+    assert count_groups(body, b) - count_groups(body, a) == margin
+    bs = rng.choice([None, 8191, 8190, 8189, 8193, 4098, 4096, 1001, 100, 64])
+    meta = {"layout": "raw", "decoys": 1, "near_boundary": False, "place": "priority", "fill": "none", "dominant": bytes([b]), "margin": margin}
+    return {"payload": body, "keys": rng.choice([None, [b"\x69"]]), "allk": True, "bs": bs, "views": [("raw", body)],
+            "hows": [rng.choice(["bytes", "file"])], "meta": meta, "again": False}
+
+
 def _decoded_trailing(enc, off, plen):
     start = off + 8 + plen
     out = bytearray()
@@ -317,6 +356,7 @@ def plan(tier, seed):
     shards = [{"kind": "mix", "n": 110 if q else 4000, "budget_s": 50 if q else 2400, "timeout_s": 300 if q else 5400} for _ in range(15)]
     shards.append({"kind": "allkeys256", "budget_s": 50 if q else 2400, "timeout_s": 300 if q else 5400})
     shards[0]["dominant"] = 12 if q else 300
+    shards[1]["priority"] = 24 if q else 600
     return shards
 
 
@@ -338,6 +378,10 @@ def run_shard(shard, ctx):
         if ctx.out_of_time():
             break
         check_case(gen_dominant(rng), ctx)
+    for _ in range(shard.get("priority", 0)):
+        if ctx.out_of_time():
+            break
+        check_case(gen_priority(rng), ctx)
     for _ in range(shard["n"]):
         if ctx.out_of_time():
             break
